@@ -64,6 +64,19 @@ pub struct Scenario {
     /// -1: -q, 0: default, 1: -v, 2: -vv
     #[serde(default)]
     pub verbosity: i8,
+    /// the pre-filled target is longer than any document (a previous, larger output)
+    #[serde(default)]
+    pub long_sentinel: bool,
+}
+
+fn sentinel(scn: &Scenario) -> String {
+    let mut s = SENTINEL.to_string();
+    if scn.long_sentinel {
+        for i in 0..2000 {
+            s.push_str(&format!("old{i}: stale tail of a previous, longer document\n"));
+        }
+    }
+    s
 }
 
 fn main_path(scn: &Scenario) -> String {
@@ -153,7 +166,7 @@ pub fn execute(c: &Cfg, world: &World, scn: &Scenario) -> Outcome {
         _ => {}
     }
     if scn.prefilled && scn.fault != Fault::TargetIsDir && !target_dir_missing(scn) {
-        std::fs::write(&tpath, SENTINEL).expect("scratch");
+        std::fs::write(&tpath, sentinel(scn)).expect("scratch");
     }
     let trace_path = root.parent().unwrap().join("trace.txt");
     let _ = std::fs::remove_file(&trace_path);
@@ -268,7 +281,7 @@ fn trace_order(scn: &Scenario, o: &Outcome) -> Option<Violation> {
 
 fn target_untouched(scn: &Scenario, o: &Outcome) -> bool {
     if scn.prefilled && !target_dir_missing(scn) {
-        o.target.as_deref() == Some(SENTINEL.as_bytes())
+        o.target.as_deref() == Some(sentinel(scn).as_bytes())
     } else {
         o.target.is_none() && !o.target_is_file
     }
@@ -520,9 +533,33 @@ pub fn run_scenario(c: &Cfg, world: &World, scn: &Scenario) -> Checked {
         violation = check_wasm(&base, &o0);
     }
     if violation.is_none() {
-        let (x, n) = check_lsp(world, &base, &o0);
-        violation = x;
-        diags = n;
+        // on a thread whose hash keys derive from the scenario: the server's folder and
+        // diagnostics maps then iterate in the same order in a run and in its replay
+        let (b2, o2) = (base.clone(), o0.clone());
+        let r = crate::hashseed::on_fresh_thread(base.hash_seed, 64, move || {
+            let w = World::new();
+            check_lsp(&w, &b2, &o2)
+        });
+        if let Ok((x, n)) = r {
+            violation = x;
+            diags = n;
+        }
+    }
+    if violation.is_none() && base.prefilled && o0.exit == Some(0) && !target_dir_missing(&base) {
+        // what is written over an existing file equals what is written into a fresh one
+        let mut fresh = base.clone();
+        fresh.prefilled = false;
+        let of = execute(c, world, &fresh);
+        if of.exit == Some(0) && of.target != o0.target {
+            violation = v(
+                "target-depends-on-previous-content",
+                format!(
+                    "over an existing target the CLI left {} bytes, into a fresh one it writes {} bytes",
+                    o0.target.as_ref().map(|t| t.len()).unwrap_or(0),
+                    of.target.as_ref().map(|t| t.len()).unwrap_or(0)
+                ),
+            );
+        }
     }
     let mut o1 = None;
     let mut under_fault = false;
@@ -763,6 +800,7 @@ pub fn run(seed: u64, run: u64) -> Report {
         src_prefix,
         target_rel,
         verbosity,
+        long_sentinel: wl.chance(1, 2),
     };
     probes.push(["config_options", "config_file", "options_override_file"][scn.config_mode as usize].to_string());
     if scn.with_base {
